@@ -47,7 +47,8 @@ TS == INSTANCE TransferState WITH
         Callers <- {}, Redispatch <- TRUE, StartStates <- {}, Dirs <- {"up", "down"},
         dir <- "down", st <- "VIRGIN", file <- FALSE, failR <- FALSE, abortR <- FALSE,
         bg <- FALSE, bgCancelled <- FALSE, holder <- 0, waitq <- <<>>, pc <- <<>>, op <- <<>>,
-        cap <- <<>>, isTask <- <<>>, ret <- <<>>, lastEdge <- <<>>
+        cap <- <<>>, isTask <- <<>>, ret <- <<>>, lastEdge <- <<>>,
+        Lst2Kinds <- {"none"}, WithLoad <- FALSE, lst2 <- "none", loaded <- TRUE
 
 Keys == Users \X Paths \X Dirs
 IsDown(k) == k[3] = "1"
